@@ -172,6 +172,11 @@ def main():
         @staticmethod
         def f(x, y=10, *, k=1):
             return x * 100 + y * 10 + k
+
+        @staticmethod
+        def g(*args, **kwargs):
+            # the callee sees everything: positional order, keyword names AND keyword order (PEP 468)
+            return (args, tuple(kwargs.items()))
     for (x0, y0, k0) in itertools.product([1, 2.5], [3, -1], [0, 4]):
         d = dict(x=x0, y=y0, k=k0, idx=1, name="q", lst=[5, 6, 7], obj=type("O", (), {})())
         d["obj"].q = 42
@@ -182,6 +187,9 @@ def main():
             ("call-pos", fr.f(r["x"], r["y"]), Fns.f(x0, y0)),
             ("call-kw", fr.f(r["x"], k=r["k"]), Fns.f(x0, k=k0)),
             ("call-mixed", fr.f(2, r["y"], k=r["k"] + 1), Fns.f(2, y0, k=k0 + 1)),
+            ("call-kw-order", fr.g(r["x"], zeta=r["y"], alpha=r["k"], mid=3), Fns.g(x0, zeta=y0, alpha=k0, mid=3)),
+            ("call-kw-order-2", fr.g(zeta=1, beta=r["x"], alpha=r["y"] * 2), Fns.g(zeta=1, beta=x0, alpha=y0 * 2)),
+            ("call-pos-order", fr.g(r["y"], r["x"], 7, r["k"]), Fns.g(y0, x0, 7, k0)),
             ("item-computed", r["lst"][r["idx"]], d["lst"][1]),
             ("item-const", r["lst"][2], 7),
             ("attr-const", r["obj"].q, 42),
